@@ -1,5 +1,6 @@
 import NA.Proofs.C14
 import NA.Proofs.C14Routes
+import NA.Props.AsaSafe
 /-!
 # C14 — incremental ACL and route changes are safe at every intermediate step
 
@@ -15,6 +16,10 @@ naturals (bit positions of the lines' match sets).
   as it is.
 * `steps_safe_counterexample`: the property as stated is **false** for the planner: a line moved
   downward across an overlapping line of the opposite action that is deleted later (F-C14).
+* `asa_steps_safe_partial` (NA.Props.AsaSafe): for the model of `diffASAACLs` itself, every state of the
+  executed plan keeps the verdict of every packet on which old and new agree, provided no downward move
+  crosses a still-present old line it does not commute with (`NoCross`); `asa_steps_safe_needs_noCross`
+  shows the hypothesis is necessary; without moves no hypothesis is needed (`asa_steps_safe_no_moves`).
 * `routes_covered`: for scripts of the emitted shape every destination covered before and after
   is covered after every step.
 -/
@@ -113,5 +118,7 @@ def obligations : List Lean.Name := [
   ``NA.Acl.steps_safe_adding, ``NA.Acl.steps_safe_deleting, ``NA.Acl.phases_endpoints,
   ``NA.Acl.move_safe_down, ``NA.Acl.move_safe_up, ``NA.Acl.log_change_safe,
   ``NA.Acl.steps_safe_counterexample, ``NA.Acl.steps_safe_counterexample_ios,
-  ``NA.Route.routes_covered]
+  ``NA.Route.routes_covered,
+  ``NA.Acl.asa_steps_old_or_new, ``NA.Acl.asa_steps_safe_partial, ``NA.Acl.asa_steps_old_or_new_no_moves,
+  ``NA.Acl.asa_steps_safe_no_moves, ``NA.Acl.asa_steps_safe_needs_noCross]
 end NA.C14
